@@ -919,7 +919,9 @@ func runHistory(h *History) *runResult {
 			}
 			if d := diffObs(x, y); d != "" {
 				detail := fmt.Sprintf("outputs %d and %d differ at %s", a.I, a.J, d)
-				if a.Only == "d1" {
+				if a.Only == "generic" {
+					add(a.Why, detail)
+				} else if a.Only == "d1" {
 					// the other side's commit may store the list a defective copy lacks
 					if ci.DirtyDlgs && dlgsPath.MatchString(d) {
 						add(keyD1, detail)
@@ -1507,21 +1509,127 @@ func (g *genr) tIndep() {
 	g.commitReopen(a)
 }
 
+// tBoth: BOTH sides of a copy append to / remove from the delegation list of the same
+// live delegator (whose slice has spare capacity), against twins that cannot alias:
+// two states reopened from a commit of a third copy take the same calls.  Each side
+// must show what its twin shows, commit to its twin's roots and reopen to the same.
+func (g *genr) tBoth() {
+	d := uint64(1 + g.r.Intn(2))
+	g.do(Op{K: "setbalance", H: 0, A: d, V: "1000"})
+	if g.r.Bool() {
+		g.do(Op{K: "setbalance", H: 0, A: 3 - d, V: "7"})
+	}
+	// a list with spare capacity: tail appends, possibly an undelegation
+	base := []uint64{1, 2, 3}[:1+g.r.Intn(3)]
+	if g.r.Chance(30) {
+		base = []uint64{2, 1, 3}[:2+g.r.Intn(2)] // one insertion in the middle
+	}
+	for _, v := range base {
+		g.do(Op{K: "upddelegator", H: 0, A: d, B: v, V: fmt.Sprintf("%d", 1+g.r.Intn(9))})
+	}
+	if g.r.Chance(50) && len(base) > 1 {
+		g.do(Op{K: "upddelegator", H: 0, A: d, B: base[g.r.Intn(len(base))], V: "0", Del: true})
+	}
+	hd := uint64(0)
+	if g.r.Chance(35) {
+		// a list decoded from the database, loaded by a read, on an object made dirty again
+		g.do(Op{K: "commit", H: 0, Del: true})
+		hd = g.fresh()
+		g.do(Op{K: "reopen", H: 0, H2: hd})
+		g.do(Op{K: "view", H: hd})
+		g.do(Op{K: "setnonce", H: hd, A: d, B: uint64(1 + g.r.Intn(5))})
+	}
+	if g.r.Chance(85) {
+		g.do(Op{K: "finalise", H: hd, Del: true})
+	}
+	if g.r.Chance(30) {
+		g.do(Op{K: "iroot", H: hd, Del: true})
+	}
+	// twins: reopened from the commit of a third copy, every object decoded afresh
+	c0 := g.fresh()
+	g.do(Op{K: "copy", H: hd, H2: c0})
+	g.do(Op{K: "commit", H: c0, Del: true})
+	t1, t2 := g.fresh(), g.fresh()
+	g.do(Op{K: "reopen", H: c0, H2: t1})
+	g.do(Op{K: "reopen", H: c0, H2: t2})
+	c := g.fresh()
+	ci := g.do(Op{K: "copy", H: hd, H2: c})
+	// both sides write the same delegator; mostly validators above every entry
+	sides := [][2]uint64{{hd, t1}, {c, t2}}
+	hi := []uint64{4, 5}
+	if g.r.Bool() {
+		hi = []uint64{5, 4}
+	}
+	n := 1 + g.r.Intn(3)
+	for i := 0; i < n; i++ {
+		for si, pr := range sides {
+			var o Op
+			switch {
+			case i == 0:
+				o = Op{K: "upddelegator", A: d, B: hi[si], V: fmt.Sprintf("%d", 1+g.r.Intn(9))}
+			case g.r.Chance(40):
+				o = Op{K: "upddelegator", A: d, B: uint64(1 + g.r.Intn(5)), V: "0", Del: true}
+			default:
+				o = Op{K: "upddelegator", A: d, B: uint64(1 + g.r.Intn(5)), V: fmt.Sprintf("%d", g.r.Intn(9))}
+			}
+			for _, h := range pr {
+				o.H = h
+				g.do(o)
+			}
+			if g.r.Chance(15) {
+				for _, h := range pr {
+					g.do(Op{K: "finalise", H: h, Del: true})
+				}
+			}
+		}
+	}
+	both := func(kind, why string, mk func(h uint64) int) {
+		for _, pr := range sides {
+			i, j := mk(pr[0]), mk(pr[1])
+			g.h.Asserts = append(g.h.Asserts, Assert{Kind: kind, I: i, J: j, Copy: ci, Why: why, Only: "generic"})
+		}
+	}
+	both("eqcontent", "after writes to both sides of a copy a side shows a delegation list its own calls did not build",
+		func(h uint64) int { return g.do(Op{K: "view", H: h}) })
+	// commit both sides in either order, then the twins
+	order := []uint64{hd, c}
+	if g.r.Bool() {
+		order = []uint64{c, hd}
+	}
+	rootsAt := map[uint64]int{}
+	for _, h := range append(order, t1, t2) {
+		rootsAt[h] = g.do(Op{K: "commit", H: h, Del: true})
+	}
+	both("eqroots", "after writes to both sides of a copy a side commits to other roots than the same calls on an unshared state",
+		func(h uint64) int { return rootsAt[h] })
+	both("eqcontent", "after writes to both sides of a copy the committed side shows a delegation list its own calls did not build",
+		func(h uint64) int { return g.do(Op{K: "view", H: h}) })
+	both("eqcontent", "after writes to both sides of a copy the reopened side differs from the same calls on an unshared state",
+		func(h uint64) int {
+			h2 := g.fresh()
+			g.do(Op{K: "reopen", H: h, H2: h2})
+			return g.do(Op{K: "view", H: h2})
+		})
+}
+
 func genHistory(r *vf.Rng, res *vf.Result) *History {
 	g := newGen(r, res)
 	switch k := r.Intn(100); {
-	case k < 35:
+	case k < 30:
 		g.h.Comment = "walk"
 		g.tWalk()
-	case k < 60:
+	case k < 53:
 		g.h.Comment = "perm"
 		g.tPerm()
-	case k < 85:
+	case k < 75:
 		g.h.Comment = "copy"
 		g.tCopy()
-	default:
+	case k < 87:
 		g.h.Comment = "indep"
 		g.tIndep()
+	default:
+		g.h.Comment = "both"
+		g.tBoth()
 	}
 	res.Count("template_" + g.h.Comment)
 	return g.h
@@ -1651,7 +1759,7 @@ func gen(seed uint64, n int, outDir, corpusDir string) {
 	vf.WriteFile(filepath.Join(outDir, "Cases.v"), sb.String())
 	res.Cases = count
 	res.Distinct = len(distinct)
-	res.Rule = "a case is one history over several StateDB handles sharing a database: random writes (accounts, storage, code, delegation lists, validators, statistics, withdraw queue, staking records, pending relationships) with Finalise/IntermediateRoot/Commit at random points and both deleteEmptyObjects flags; templates: random walk, the same cell writes permuted and regrouped on handles reopened from one commit, copy at a chosen point (inside a transaction, after Finalise, after IntermediateRoot, after Commit) followed by the same suffix on both sides, writes to one side of a copy; every call's result (root numbers, full reads of all observed addresses) is compared with the model; non-trivial = has a flush and a copy or reopen; distinct by full history"
+	res.Rule = "a case is one history over several StateDB handles sharing a database: random writes (accounts, storage, code, delegation lists, validators, statistics, withdraw queue, staking records, pending relationships) with Finalise/IntermediateRoot/Commit at random points and both deleteEmptyObjects flags; templates: random walk, the same cell writes permuted and regrouped on handles reopened from one commit, copy at a chosen point (inside a transaction, after Finalise, after IntermediateRoot, after Commit) followed by the same suffix on both sides, writes to one side of a copy, appends/removals on the delegation list of one live delegator on BOTH sides of a copy against unshared twins reopened from a commit; every call's result (root numbers, full reads of all observed addresses) is compared with the model; non-trivial = has a flush and a copy or reopen; distinct by full history"
 	res.Write(filepath.Join(outDir, "result.json"))
 }
 
